@@ -289,7 +289,22 @@ func runC10(c *fw.Case) {
 			for j := 1 + rng.Intn(3); j > 0; j-- {
 				data[[]string{"a", "b", "c", "", "$d"}[rng.Intn(5)]] = pick(rng, args)
 			}
-			judge(fmt.Sprintf("New(%d columns from the argument pool)", len(data)), "New", false, func() qframe.QFrame { return qframe.New(data) })
+			nf, _ := judge(fmt.Sprintf("New(%d columns from the argument pool)", len(data)), "New", false, func() qframe.QFrame { return qframe.New(data) })
+			if nf.Err == nil {
+				// whatever New accepted must be usable: observers and a few operations must not panic on it
+				judge(fmt.Sprintf("use of the frame New(%d columns from the argument pool) returned without Err", len(data)), "New-then-use", false, func() qframe.QFrame {
+					_ = nf.String()
+					_ = nf.ToCSV(&bytes.Buffer{})
+					_ = nf.ToJSON(&bytes.Buffer{})
+					_, _ = nf.Equals(nf)
+					names := nf.ColumnNames()
+					if len(names) > 0 {
+						_ = nf.Sort(qframe.Order{Column: names[0]})
+						_ = nf.Distinct()
+					}
+					return nf.Slice(0, nf.Len())
+				})
+			}
 		case 8:
 			a, b := rng.Intn(rows+4)-2, rng.Intn(rows+4)-2
 			judge(fmt.Sprintf("Slice(%d,%d)", a, b), "Slice", a < 0 || a > b || b > qf.Len(), func() qframe.QFrame { return qf.Slice(a, b) })
@@ -440,6 +455,11 @@ func runC10(c *fw.Case) {
 		{"Sort on unknown column", "Sort", func() qframe.QFrame { return qf.Sort(qframe.Order{Column: iC}, qframe.Order{Column: "nope"}) }},
 		{"Select unknown column", "Select", func() qframe.QFrame { return qf.Select(iC, "nope") }},
 		{"Copy from unknown column", "Copy", func() qframe.QFrame { return qf.Copy("x", "nope") }},
+		{"Copy of an unknown column onto itself", "Copy", func() qframe.QFrame { return qf.Copy("nope", "nope") }},
+		{"Apply copy of an unknown column onto itself", "Apply", func() qframe.QFrame {
+			return qf.Apply(qframe.Instruction{Fn: types.ColumnName("nope"), DstCol: "nope"})
+		}},
+		{"Eval of an unknown column onto itself", "Eval", func() qframe.QFrame { return qf.Eval("nope", qframe.Val(types.ColumnName("nope"))) }},
 		{"Copy to illegal name", "Copy", func() qframe.QFrame { return qf.Copy("$x", iC) }},
 		{"Distinct on unknown column", "Distinct", func() qframe.QFrame { return qf.Distinct(groupby.Columns("nope")) }},
 		{"GroupBy on unknown column", "Aggregate", func() qframe.QFrame {
